@@ -761,7 +761,7 @@ func (db *ContractDB) loadContractFile(path, pkg string) error {
 	}
 	for i := 0; i < len(lines); {
 		l := lines[i]
-		if strings.HasPrefix(l.text, "func ") && strings.Contains(l.text, "{") {
+		if (strings.HasPrefix(l.text, "func ") || strings.HasPrefix(l.text, "callsite ")) && strings.Contains(l.text, "{") {
 			j := i + 1
 			for j < len(lines) && !isHeader(lines[j].text) {
 				j++
